@@ -445,10 +445,11 @@ func (r *Router) RunHandlers(ctx context.Context) error {
 
 		h.messagesCh = messages
 		h.started = true
-		close(h.startedCh)
 
 		h.stopFn = cancel
 		h.stopped = make(chan struct{})
+
+		close(h.startedCh)
 
 		go func() {
 			defer cancel()
